@@ -38,13 +38,16 @@ type Party interface {
 	unlock()
 	noteEarlyMessage()
 	hadEarlyMessage() bool
+	setFailed(*Error)
+	failure() *Error
 }
 
 type BaseParty struct {
 	mtx        sync.Mutex
 	rnd        Round
 	FirstRound Round
-	early      bool // a message was stored before Start()
+	early      bool   // a message was stored before Start()
+	failed     *Error // a round could not be started: the party has aborted
 }
 
 func (p *BaseParty) Running() bool {
@@ -116,6 +119,14 @@ func (p *BaseParty) hadEarlyMessage() bool {
 	return p.early
 }
 
+func (p *BaseParty) setFailed(err *Error) {
+	p.failed = err
+}
+
+func (p *BaseParty) failure() *Error {
+	return p.failed
+}
+
 func (p *BaseParty) lock() {
 	p.mtx.Lock()
 }
@@ -152,6 +163,7 @@ func BaseStart(p Party, task string, prepare ...func(Round) *Error) *Error {
 		common.Logger.Debugf("party %s: %s round %d finished", p.PartyID(), task, 1)
 	}()
 	if err := p.round().Start(); err != nil {
+		p.setFailed(err)
 		return err
 	}
 	// messages delivered before Start() are already stored: take them into account now, otherwise a
@@ -165,6 +177,7 @@ func BaseStart(p Party, task string, prepare ...func(Round) *Error) *Error {
 		}
 		if p.advance(); p.round() != nil {
 			if err := p.round().Start(); err != nil {
+				p.setFailed(err)
 				return err
 			}
 		}
@@ -184,6 +197,11 @@ func BaseUpdate(p Party, msg ParsedMessage, task string) (ok bool, err *Error) {
 		return ok, err
 	}
 	p.lock() // data is written to P state below
+	// a round that failed to start has left its results unset: going on from it (a later message can
+	// complete the round's bookkeeping) would run the next round on missing data
+	if err := p.failure(); err != nil {
+		return r(false, err)
+	}
 	common.Logger.Debugf("party %s received message: %s", p.PartyID(), msg.String())
 	if p.round() != nil {
 		common.Logger.Debugf("party %s round %d update: %s", p.PartyID(), p.round().RoundNumber(), msg.String())
@@ -199,6 +217,7 @@ func BaseUpdate(p Party, msg ParsedMessage, task string) (ok bool, err *Error) {
 		if p.round().CanProceed() {
 			if p.advance(); p.round() != nil {
 				if err := p.round().Start(); err != nil {
+					p.setFailed(err)
 					return r(false, err)
 				}
 				rndNum := p.round().RoundNumber()
